@@ -135,6 +135,8 @@ def build_section(case):
                         augdata += bytes([e['fde_enc']])
                     elif c == b'P':
                         augdata += bytes([e['pers'][0]]) + enc_ptr(le, A, e['pers'][0], e['pers'][1])
+                # bytes beyond the fields the letters announce: the declared length exists so that a reader can skip what it does not know
+                augdata += bytes(e.get('aug_slack', b''))
                 h += uleb(len(augdata)) + augdata
             bodies.append({'ilen': ilen, 'O': O, 'pre': bytes(h), 'ops': ops, 'augdata': augdata, 'size': ilen + O + len(h) + len(ops)})
         else:
@@ -145,7 +147,7 @@ def build_section(case):
                 n_loc = len(enc_ptr(le, A, fenc, 0))
                 n_aug = 0
                 if cie['aug'][:1] == b'z':
-                    n_lsda = len(enc_ptr(le, A, lenc, 0)) if lenc != 0xff else 0
+                    n_lsda = (len(enc_ptr(le, A, lenc, 0)) if lenc != 0xff else 0) + len(e.get('aug_slack', b''))
                     n_aug = len(uleb(n_lsda)) + n_lsda
                 size = ilen + O + 2 * n_loc + n_aug + len(ops)
                 bodies.append({'ilen': ilen, 'O': O, 'ops': ops, 'size': size, 'fenc': fenc, 'lenc': lenc, 'n_loc': n_loc})
@@ -179,16 +181,22 @@ def build_section(case):
                 loc_field = offs[i] + ilen + O
                 fenc, lenc = b['fenc'], b['lenc']
                 loc = e['loc']
+                if e.get('loc_rel') is not None and (fenc & 0x70) == 0x10:
+                    loc = sec_addr + loc_field + e['loc_rel']       # the case fixes the encoded displacement, not the address
                 rel = loc - (sec_addr + loc_field) if (fenc & 0x70) == 0x10 else loc
                 rec += enc_ptr(le, A, fenc, rel) + enc_ptr(le, A, fenc & 0x0f, e['range'])
                 augb = b''
                 lsda = None
                 if cie['aug'][:1] == b'z':
+                    slack = bytes(e.get('aug_slack', b''))
                     if lenc != 0xff:
-                        lsda_field = offs[i] + len(rec) + len(uleb(len(enc_ptr(le, A, lenc, 0))))
+                        lsda_field = offs[i] + len(rec) + len(uleb(len(enc_ptr(le, A, lenc, 0)) + len(slack)))
                         lsda = e['lsda']
+                        if e.get('lsda_rel') is not None and (lenc & 0x70) == 0x10:
+                            lsda = sec_addr + lsda_field + e['lsda_rel']
                         lrel = lsda - (sec_addr + lsda_field) if (lenc & 0x70) == 0x10 else lsda
                         augb = enc_ptr(le, A, lenc, lrel)
+                    augb += slack
                     rec += uleb(len(augb)) + augb
                 rec += b['ops']
                 x.update(CIE_pointer=cp, loc=loc, range=e['range'], lsda=lsda, augdata=augb, fenc=fenc, lenc=lenc)
@@ -357,6 +365,10 @@ def _register(ctx, case, data, exp, nt):
     for e in case['entries']:
         if e['t'] == 'cie':
             ctx.count('cie.v%d.%d' % (e['version'], e['fmt']))
+        if e.get('aug_slack'):
+            ctx.count('aug-data-longer-than-known-fields.%s' % e['t'])
+        if e.get('lsda_rel') is not None or e.get('loc_rel') is not None:
+            ctx.count('pcrel-pointer-given-by-displacement')
     if any(e['t'] == 'fde' and e['cie'] > i for i, e in enumerate(case['entries'])):
         ctx.count('fde-before-cie')
     ctx.case((case['kind'], case['le'], case['addr_size'], case.get('sec_addr', 0), data), nt,
@@ -535,6 +547,8 @@ def build_case(ch, tier, kind=None):
             penc = ch.choice(FDE_ENCS) | ch.choice([0, 0x10, 0x80, 0x90])
             lo, hi = ptr_range(A, penc)
             e['pers'] = [penc, ch.choice([0, 1, hi, lo, ch.int(lo, hi)])]
+            if e['aug'][:1] == b'z' and ch.bool(0.25):
+                e['aug_slack'] = ch.choice([b'\x07\x05', b'\0', ch.bytes(1, 6)])
         ops, ck = gen_ops(ch, A, caf, True, None, ch.choice([0, 2, 6]), 0, regs_pool)
         e['ops'] = ops
         e['_ck'] = ck
@@ -570,8 +584,16 @@ def build_case(ch, tier, kind=None):
                 e['lsda'] = ch.choice([0, 1, max(llo, 0), min(lhi, (1 << (8 * A)) - 1), ch.int(max(llo, 0), min(lhi, (1 << (8 * A)) - 1, 1 << 62))])
         else:
             e['lsda'] = None
+        if eh and cie['aug'][:1] == b'z':
+            if ch.bool(0.2):
+                e['aug_slack'] = ch.choice([b'\x07\x05', b'\0', ch.bytes(1, 6)])
+            # pc-relative pointers given by their encoded displacement (0: the pointer designates its own field)
+            if lenc != 0xff and lenc & 0x10 and ch.bool(0.3):
+                e['lsda_rel'] = ch.choice([0, 0, 1, 8, 0x40])
         ops, _ = gen_ops(ch, A, cie['caf'], False, cie['_ck'], maxn, loc, regs_pool)
         e['ops'] = ops
+        if eh and fenc & 0x10 and ch.bool(0.15) and not any(op[0] == 'set_loc' for op in ops):
+            e['loc_rel'] = ch.choice([0, 0, 4, 0x40])
         fdes.append(e)
     # order: eh_frame keeps each CIE before its FDEs; debug_frame any interleaving
     if eh:
@@ -676,7 +698,8 @@ def floors(ctx):
     for enc in ENC_BASIC.values():
         if c['fde.enc.' + enc] == 0 or c['fde.enc.' + enc + '+pcrel'] == 0:
             out.append('FDE pointer encoding never exercised: ' + enc)
-    for k in ('cie.v1.32', 'cie.v3.32', 'cie.v4.32', 'cie.v4.64', 'fde-before-cie', 'entry.zero'):
+    for k in ('cie.v1.32', 'cie.v3.32', 'cie.v4.32', 'cie.v4.64', 'fde-before-cie', 'entry.zero', 'aug-data-longer-than-known-fields.cie',
+              'aug-data-longer-than-known-fields.fde', 'pcrel-pointer-given-by-displacement'):
         if c[k] == 0:
             out.append('no case with ' + k)
     for kind in ('debug_frame', 'eh_frame'):
